@@ -1187,6 +1187,30 @@ fn c14(r: &mut R) {
         let p = ctx.rnd_plaintext();
         r.h.check(ctx.encode(&p).is_ok(), || "rnd_plaintext not encodable on R255".to_string());
     }
+    // plaintexts that need MANY candidates (corpus/r255_deep_encode.txt: found by random search against
+    // curve25519-dalek's decompression only): the rare deep iterations of the search loop; the expected point is
+    // the candidate at the recorded depth
+    for line in include_str!("../corpus/r255_deep_encode.txt").lines().filter(|l| !l.starts_with('#') && !l.trim().is_empty()) {
+        let mut it = line.split_whitespace();
+        let depth: usize = it.next().unwrap().parse().unwrap();
+        let hex = it.next().unwrap();
+        let bytes: Vec<u8> = (0..30).map(|i| u8::from_str_radix(&hex[2 * i..2 * i + 2], 16).unwrap()).collect();
+        let mut data = [0u8; 30];
+        data.copy_from_slice(&bytes);
+        let out = r.case("encode", vec![b(&data)], || match ctx.encode(&data) {
+            Ok(e) => Out::Ok(ve(&e)),
+            Err(_) => Out::Err,
+        });
+        let mut want = vec![(2 * (depth % 128)) as u8];
+        want.extend(&data);
+        want.push((depth / 128) as u8);
+        r.h.check(out == Out::Ok(b(&want)), || format!("encode of the 30-byte plaintext {} (first decodable candidate is number {}) is {:?}, expected the point {:02x?}", hex, depth, out, &want[..4]));
+        if let Out::Ok(Val::Bytes(eb_)) = &out {
+            if let Ok(e) = E::strand_deserialize(eb_) {
+                r.h.check(ctx.decode(&e) == data, || format!("decode(encode(p)) != p on R255 for the deep plaintext {}", hex));
+            }
+        }
+    }
 }
 
 fn c16_c17(r: &mut R, prop: &str) {
